@@ -101,7 +101,7 @@ pub struct FakeLauncher {
     arm_fail: Rc<Cell<bool>>,
     /// the next execution that is told to stop on this worker takes its time to die: it ends only
     /// when the harness lets it (a process that does not exit at once on the signal)
-    arm_slow_stop: Rc<Cell<bool>>,
+    arm_slow_stop: Rc<Cell<u32>>,
     inert: Rc<Cell<bool>>,
     time_limits: Rc<RefCell<BTreeMap<Tid, Option<u64>>>>,
 }
@@ -216,10 +216,10 @@ impl TaskLauncher for FakeLauncher {
                             let step = sh.step;
                             sh.log.push((step, Obs::ExecStop { exec, timeout }));
                         }
-                        if arm_slow_stop.get() {
+                        if arm_slow_stop.get() > 0 {
                             // the process got the signal but is still there until the harness
                             // lets it end (Action::Finish on this execution)
-                            arm_slow_stop.set(false);
+                            arm_slow_stop.set(arm_slow_stop.get() - 1);
                             let _ = (&mut finish_rx).await;
                             if inert.get() {
                                 return futures::future::pending().await;
@@ -414,7 +414,7 @@ pub struct WorkerHandle {
     /// the worker processed `Stop` and left its message loop
     pub stopped: bool,
     arm_fail: Rc<Cell<bool>>,
-    arm_slow_stop: Rc<Cell<bool>>,
+    arm_slow_stop: Rc<Cell<u32>>,
     inert: Rc<Cell<bool>>,
     pub time_limits: Rc<RefCell<BTreeMap<Tid, Option<u64>>>>,
 }
@@ -775,7 +775,7 @@ impl Sim {
             .try_recv()
             .expect("registration response must be queued first");
         let arm_fail = Rc::new(Cell::new(false));
-        let arm_slow_stop = Rc::new(Cell::new(false));
+        let arm_slow_stop = Rc::new(Cell::new(0u32));
         let s2 = arm_slow_stop.clone();
         let inert = Rc::new(Cell::new(false));
         let time_limits = Rc::new(RefCell::new(BTreeMap::new()));
@@ -1006,7 +1006,8 @@ impl Sim {
 
     pub fn arm_slow_stop(&mut self, wid: Wid) {
         if let Some(w) = self.workers.get(&wid) {
-            w.arm_slow_stop.set(true);
+            // the next few executions told to stop on this worker die slowly
+            w.arm_slow_stop.set(4);
         }
     }
 
